@@ -20,8 +20,9 @@ without cached hash — all five arms of the Go switch.  `cfg : Cfg` is the vari
 harness finds in the tree under test: `Cfg.at997852f` = /repo today, `Cfg.strict` = with
 proposed-fixes/C10-verifyproof-walk-collapsed-node-and-guards.diff.  Range proofs (trie2):
 `verifySingle`, `verifyEmpty`, `verifyAll`, `verifyMulti` with variant `RCfg` (`RCfg.strict` = /repo
-today).  Heights `0 < n < 256` (path positions are `uint8`; juno uses 251).  Keys are bit paths: the
-conversion felt ↦ path (`SetFelt(251, ·)`, drops bit 251) is outside these statements, see notes.
+today).  Heights `0 < n < 256` (path positions are `uint8`; juno uses 251).  Keys are bit paths; the
+conversion felt ↦ path (`SetFelt(251, ·)`, drops bit 251) is `pathOfNat` in `verifyLFelt` /
+`verify2Felt`, see `felt_key_alias` / `felt_key_checked`.
 -/
 namespace Juno.C10.Props
 open Juno.C10
